@@ -16,6 +16,7 @@ import (
 
 func TestMain(m *testing.M) {
 	verifrt.StrictSpawn = true
+	verifrt.ParkRaceTest = os.Getenv("VERIF_PARKRACE") != ""
 	verifh.Main(m, "A")
 }
 
